@@ -59,6 +59,10 @@ CLAIMS["C11"] = ("streamgate", "stateful property-based testing (rapid) with har
     "Gates sit at interface boundaries drand already has (chain.Cursor, SyncStream, CallbackStore); the callback worker goroutines run free.", "DESIGN.md §3 C11")
 ENGINES_EXTRA = [{"name": "streamgate", "path": "harness/streamgate", "serves_properties": ["C11", "C12"], "kind_free_text": "real SyncChain / callback store behind gated wrappers so that interleavings are generated values"}]
 
+CLAIMS["C12"] = ("streamgate", "property-based testing (rapid): fault-injected stream consumers against the real callback store (latency/ordering oracle) + in-package stateful test of the partial cache against eviction and size invariants",
+    "Generated numbers and behaviours of stalled / slow / failing / disconnecting consumers attached through the real SyncChain while beacons are appended past the queue capacity; and generated partial floods on the real partialCache with invariants checked after every operation.",
+    "Two real-time bounds (>= 400x normal) feed the oracle of part (a), each re-examined before it counts.", "DESIGN.md §3 C12")
+
 PENDING_REASON = "check not built yet in this session (planned, see DESIGN.md §3); not claimed until it exists and is silent on the unchanged tree"
 
 
